@@ -192,7 +192,8 @@ def run_case(case):
                 if rec_obj > float(wit) + 1e-6 * max(1, abs(float(wit))):
                     # classify by mechanism: is the library optimal under its own bound w_max = k*max weight on every product multiplicity*weight?
                     from fpverif.props.c08 import classify_mechanism
-                    mech = classify_mechanism(lambda cc, pc: ref.lae_min(cc, demand, k, models.WT[wt], sc, prod_cap=pc), cols, m, mode, rec_obj) or tagstr
+                    mech = classify_mechanism(lambda cc, pc: ref.lae_min(cc, demand, k, models.WT[wt], sc, prod_cap=pc), cols, m, mode, rec_obj,
+                                              cols_fn=lambda B_: columns_cyc(G, mode, case["starts"], case["ends"], B_)) or tagstr
                     viol.append({"sig": f"C07/{cls}/worse-than-witness{mech}", "msg": f"recomputed objective {rec_obj} but a solution with multiplicities <= {B} achieves {wit}; {desc}"})
                 # monotone in k
                 r3 = run_one(cls, case, k + 1, viol, obs, desc, tagstr)
